@@ -154,6 +154,24 @@ func isUnlockCall(c *ast.CallExpr) bool {
 	return ok && (sel.Sel.Name == "Unlock" || sel.Sel.Name == "RUnlock")
 }
 
+// usesTryLock reports whether the statement (outside nested function literals) calls x.TryLock() or
+// x.TryRLock(): code whose behaviour depends on a lock being held by somebody else at that instant.
+func usesTryLock(n ast.Node) bool {
+	found := false
+	ast.Inspect(n, func(x ast.Node) bool {
+		if _, ok := x.(*ast.FuncLit); ok && x != n {
+			return false
+		}
+		if c, ok := x.(*ast.CallExpr); ok && len(c.Args) == 0 {
+			if sel, ok := c.Fun.(*ast.SelectorExpr); ok && (sel.Sel.Name == "TryLock" || sel.Sel.Name == "TryRLock") {
+				found = true
+			}
+		}
+		return true
+	})
+	return found
+}
+
 func isLockCall(s ast.Stmt) (*ast.CallExpr, *ast.SelectorExpr, bool) {
 	es, ok := s.(*ast.ExprStmt)
 	if !ok {
@@ -175,12 +193,16 @@ func rewriteList(list []ast.Stmt, from int, firstAllowed bool) []ast.Stmt {
 	var out []ast.Stmt
 	afterBeforeBlock := false
 	for i, s := range list {
+		// decided on the statement as written, before its nested blocks are instrumented
+		hadHook := callsSimhook(s, "")
+		hookBeforeBlock := callsSimhook(s, "BeforeBlock") || callsSimhook(s, "Spawn")
+		tryLock := usesTryLock(s)
 		rewriteInside(s)
 		eligible := i >= from && (i > 0 || firstAllowed) && !afterBeforeBlock
 		if _, isSel := s.(*ast.SelectStmt); isSel {
 			eligible = false
 		}
-		if callsSimhook(s, "") {
+		if hadHook {
 			eligible = false
 		}
 		if _, isDecl := s.(*ast.DeclStmt); isDecl {
@@ -195,6 +217,10 @@ func rewriteList(list []ast.Stmt, from int, firstAllowed bool) []ast.Stmt {
 			if c, sel, ok := isLockCall(s); ok {
 				out = append(out, lockProbe(c, sel))
 				locks++
+			} else if tryLock {
+				// the simulator may arrange for another task to hold a lock at this very moment
+				out = append(out, markStmt("auto.trylock", false))
+				inserted++
 			} else if snd, ok := s.(*ast.SendStmt); ok {
 				out = append(out, yieldStmt(s.Pos()))
 				out = append(out, sendProbe(snd))
@@ -220,7 +246,7 @@ func rewriteList(list []ast.Stmt, from int, firstAllowed bool) []ast.Stmt {
 			}
 		}
 		// between Spawn and the go statement the child task exists for the scheduler but has no goroutine yet
-		afterBeforeBlock = callsSimhook(s, "BeforeBlock") || callsSimhook(s, "Spawn")
+		afterBeforeBlock = hookBeforeBlock
 	}
 	return out
 }
